@@ -74,7 +74,83 @@ let ops_case toks =
        | Some y' -> Printf.sprintf "%s %s" (str (M.muladd_shoup w p z x y y')) (str (zmod ((x *! y) +! z) p)))
   | _ -> "badcase"
 
-let dispatch : (string * (string list -> string)) list ref = ref [ ("ops", ops_case) ]
+(* ------------------------------------------------------------------ C01/C02: transforms *)
+let rows_of w = if w = 16 then M.rows16 else if w = 32 then M.rows32 else M.rows64
+let kmax_of w = if w = 16 then M.k16 else if w = 32 then M.k32 else M.k64
+let rec log2i n = if n <= 1 then 0 else 1 + log2i (n / 2)
+let rec take n l = if n = 0 then [] else match l with [] -> [] | x :: t -> x :: take (n - 1) t
+let rec drop n l = if n = 0 then l else match l with [] -> [] | _ :: t -> drop (n - 1) t
+let row w cm = let (((p, pn), g), ik) = List.nth (rows_of w) cm in (p, pn, g, ik)
+
+(* independent spec side, zarith on arrays *)
+let bitrev k j = let r = ref 0 in for b = 0 to k - 1 do if (j lsr b) land 1 = 1 then r := !r lor (1 lsl (k - 1 - b)) done; !r
+let spec_fwd p g kmax k (a : Z.t array) =
+  let n = Array.length a in
+  let phi = Z.powm g (Z.shift_left Z.one (kmax - k)) p in
+  Array.init n (fun j ->
+      let psi = Z.powm phi (Z.of_int (2 * bitrev k j + 1)) p in
+      let acc = ref Z.zero and pw = ref Z.one in
+      for i = 0 to n - 1 do acc := Z.erem (Z.add !acc (Z.mul a.(i) !pw)) p; pw := Z.erem (Z.mul !pw psi) p done; !acc)
+let spec_nega p (a : Z.t array) (b : Z.t array) =
+  let n = Array.length a in
+  Array.init n (fun k ->
+      let acc = ref Z.zero in
+      for i = 0 to n - 1 do
+        for j = 0 to n - 1 do
+          if i + j = k then acc := Z.add !acc (Z.mul a.(i) b.(j))
+          else if i + j = k + n then acc := Z.sub !acc (Z.mul a.(i) b.(j))
+        done
+      done; Z.erem !acc p)
+let zarr l = Array.of_list (List.map zz_of_cz l)
+let strza a = String.concat " " (Array.to_list (Array.map Z.to_string a))
+
+let ntt_case toks =
+  match toks with
+  | op :: w :: n :: nm :: words ->
+      let wi = int_of_string w and n = int_of_string n and nm = int_of_string nm in
+      let wz = czi wi in
+      let k = log2i n in
+      let kmaxn = kmax_of wi in
+      let kmax = int_of_nat kmaxn in
+      let v = czl words in
+      let mb = Buffer.create 256 and sb = Buffer.create 256 and mb2 = Buffer.create 256 and sb2 = Buffer.create 256 in
+      for cm = 0 to nm - 1 do
+        let (p, _, g, ik) = row wi cm in
+        let pz = zz_of_cz p and gz = zz_of_cz g in
+        let a = take n (drop (cm * n) v) in
+        let b = take n (drop (nm * n + cm * n) v) in
+        let fwd x = if n = 1 then M.ntt_fwd1 p x else M.ntt_fwd wz p g kmaxn (nat_of_int (k - 1)) x in
+        let inv x = if n = 1 then M.ntt_inv1 p ik kmaxn x else M.ntt_inv wz p g ik kmaxn (nat_of_int (k - 1)) x in
+        let addm x y = List.map2 (fun u v -> M.addmod wz p u v) x y in
+        let subm x y = List.map2 (fun u v -> M.submod wz p u v) x y in
+        let mulm x y = List.map2 (fun u v -> zmod (u *! v) p) x y in
+        let mulsh x y = List.map2 (fun u v -> match M.compute_shoup wz p v with Some v' -> M.mulmod_shoup wz p u v v' | None -> czi (-1)) x y in
+        let out m s = Buffer.add_string mb (strl m); Buffer.add_char mb ' '; Buffer.add_string sb s; Buffer.add_char sb ' ' in
+        (match op with
+         | "fwd" -> out (fwd a) (strza (spec_fwd pz gz kmax k (zarr a)))
+         | "inv" -> out (inv a) "?"
+         | "rt_fi" -> out (inv (fwd a)) (strl a)
+         | "rt_if" -> out (fwd (inv a)) (strl a)
+         | "mul" -> out (inv (mulm (fwd a) (fwd b))) (strza (spec_nega pz (zarr a) (zarr b)))
+         | "mulshoup" -> out (inv (mulsh (fwd a) (fwd b))) (strza (spec_nega pz (zarr a) (zarr b)))
+         | "circuit" ->
+             let fa = fwd a and fb = fwd b in
+             let c = subm (addm (mulm fa fb) fa) fb in
+             let ab = spec_nega pz (zarr a) (zarr b) in
+             let za = zarr a and zb = zarr b in
+             out (inv c) (strza (Array.mapi (fun i x -> Z.erem (Z.sub (Z.add x za.(i)) zb.(i)) pz) ab))
+         | "addfwd" ->
+             let s = addm a b in
+             out (fwd s) (strza (spec_fwd pz gz kmax k (zarr s)));
+             Buffer.add_string mb2 (strl (addm (fwd a) (fwd b))); Buffer.add_char mb2 ' ';
+             Buffer.add_string sb2 (strza (spec_fwd pz gz kmax k (zarr s))); Buffer.add_char sb2 ' '
+         | _ -> out [] "badop")
+      done;
+      if op = "addfwd" then Printf.sprintf "%s| %s# %s| %s" (Buffer.contents mb) (Buffer.contents mb2) (Buffer.contents sb) (Buffer.contents sb2)
+      else Printf.sprintf "%s# %s" (Buffer.contents mb) (Buffer.contents sb)
+  | _ -> "badcase"
+
+let dispatch : (string * (string list -> string)) list ref = ref [ ("ops", ops_case); ("ntt", ntt_case) ]
 
 let () =
   let family = if Array.length Sys.argv > 1 then Sys.argv.(1) else "ops" in
